@@ -278,9 +278,12 @@ namespace sbepp
 #    define SBEPP_ASSERT(expr) assert(expr)
 #endif
 
+// `begin <= end` is required because a view can start past the end of the
+// buffer (e.g. a member located after a `<data>` with a bogus length), in which
+// case `end - begin` is negative and its conversion to `std::size_t` is huge
 #define SBEPP_SIZE_CHECK(begin, end, offset, size) \
     SBEPP_ASSERT(                                  \
-        (begin)                                    \
+        (begin) && ((begin) <= (end))              \
         && (((offset) + (size)) <= static_cast<std::size_t>((end) - (begin))))
 
 //! @brief The main `sbepp` namespace
